@@ -18,6 +18,9 @@ BASE = [
      "harmonicWalls {\n  name w\n  colvars a\n  upperWalls 100.0\n  forceConstant 0.1\n}\n"),
     ("colvarsTrajFrequency 0\ncolvar {\n  name z\n  distanceZ {\n    main { atomNumbers 1 2 }\n    ref { atomNumbers 3 }\n    axis (0.0, 0.0, 1.0)\n  }\n}\n"
      "linear {\n  name l\n  colvars z\n  centers 0.5\n  forceConstant 1.5\n}\n"),
+    # a boolean keyword that changes the numbers, last in its block (written in shorthand / with the closing brace on its line by the rewriter)
+    ("colvar {\n  name cn\n  coordNum {\n    cutoff 3.0\n    group1 { atomNumbers 1 2 }\n    group2 { atomNumbers 3 4 }\n    group2CenterOnly on\n  }\n}\n"
+     "harmonic {\n  name hcn\n  colvars cn\n  centers 1.0\n  forceConstant 2.0\n}\n"),
     # biases on two variables: lists with one value per variable
     ("colvar {\n  name p\n  distance {\n    group1 { atomNumbers 1 }\n    group2 { atomNumbers 2 }\n  }\n}\n"
      "colvar {\n  name q\n  distance {\n    group1 { atomNumbers 3 }\n    group2 { atomNumbers 4 }\n  }\n}\n"
@@ -62,6 +65,17 @@ def rewrite_layout(rng, conf):
         if rng.rand() < 0.15:
             out.append(rng.choice(["", "   ", "# comment line with keywords name width", "\t"]))
     s = "\n".join(out)
+    # the closing brace of a block on the line of its last keyword (with or without a blank before it)
+    if rng.rand() < 0.6:
+        ls = s.split("\n"); j = 0; joined = []
+        while j < len(ls):
+            cur = ls[j]
+            if (j + 1 < len(ls) and ls[j + 1].strip() == "}" and cur.strip() and "#" not in cur and not cur.strip().endswith("{")
+                    and not cur.strip().endswith("}") and rng.rand() < 0.5):
+                joined.append(cur.rstrip() + rng.choice([" }", "}", "\t}"])); j += 2
+            else:
+                joined.append(cur); j += 1
+        s = "\n".join(joined)
     # split a brace-delimited value over lines
     if rng.rand() < 0.5:
         s = re.sub(r"\{ atomNumbers ([0-9 ]+) \}", lambda m_: "{\n      atomNumbers %s\n   }" % m_.group(1), s, count=rng.randint(1, 2))
@@ -195,7 +209,7 @@ def gen(rng, tier):
         lines = ["m.new %d" % NATOMS, "M.noclock", cfg(bad)]
         bad_line = len(lines)
         # delete whatever survived the rejected configuration, object by object, then feed the corrected text
-        lines += ["m.scriptq cv colvar %s delete" % nm for nm in ("d", "a", "z", "p", "q")] + [cfg(base)]
+        lines += ["m.scriptq cv colvar %s delete" % nm for nm in ("d", "a", "z", "p", "q", "cn")] + [cfg(base)]
         ok_line = len(lines)
         lines += st
         first = len(lines) - len(st) + 1
